@@ -17,7 +17,7 @@ from .. import algebra as A
 
 PID = "C19"
 MODES = {"rp": ["smartquotes"], "sq": ["replacements"], "both": []}
-QUOTES = {"default": None, "q4": "q4", "qlist": "qlist"}
+QUOTES = {"default": None, "q4": "q4", "qlist": "qlist", "qempty": "qempty"}
 
 
 def cfgs_for(preset, mode, quotes):
@@ -76,18 +76,21 @@ def record(job):
     kon, koff = cfgs_for(preset, mode, quotes)
     mon, moff = A.md_for(kon), A.md_for(koff)
     fon, foff = flat(mon.parse(doc), []), flat(moff.parse(doc), [])
-    masks = prot_masks(moff, doc)
+    masks = [m for m in prot_masks(moff, doc) if m]       # one mask per non-empty merged text run
     toks, mi = [], 0
     for a, b in zip(foff, fon):
         text = 1 if a[0] == "text" else 0
         co = C.cps(a[3]) if a[3] is not None else []
         cn = C.cps(b[3]) if b[3] is not None else []
         prot = []
-        if text:
-            prot = masks[mi] if mi < len(masks) and len(masks[mi]) == len(co) else None
+        if text and co:
+            if mi < len(masks) and len(masks[mi]) == len(co):
+                prot = masks[mi]
+            else:
+                # the off-parse and its text_join-less twin do not line up (only possible when text_join itself
+                # misbehaves): no position is treated as protected, the acceptor then judges the streams as they are
+                prot = [0] * len(co)
             mi += 1
-            if prot is None:
-                raise C.MachineryError(f"protected-position mask does not line up for {doc!r}")
         toks.append({"text": text, "auto": a[1], "roff": a[2], "ron": b[2], "coff": co, "con": cn, "prot": prot})
     q = mon.options["quotes"]
     return {"sq": 0 if mode == "rp" else 1, "rp": 0 if mode == "sq" else 1, "q": [C.cps(q[x]) for x in range(4)],
